@@ -101,6 +101,12 @@ func cmdRun(args []string) int {
 		}
 		pc := props[*propName]
 		conf.FmtInts, conf.HashInjective = pc.FmtInts, pc.HashInj
+		if len(pc.StubText) > 0 {
+			conf.StubText = map[string]bool{}
+			for _, f := range pc.StubText {
+				conf.StubText[f] = true
+			}
+		}
 		conf.Merge = map[string]bool{}
 		for _, f := range pc.Merge {
 			conf.Merge[f] = true
